@@ -602,6 +602,31 @@ save('benign-memokey-temp','C05',sb,'the boolean-table accesses rewritten with t
 m('optparam-gkr','C10',['EFF-OPTSLICE'],'constraint/bls12-381/solver.go','''		opts = append(opts[:len(opts):len(opts)],
 ''','''		opts = append(opts,
 ''',note='F13 reintroduced: GKR overrides appended in place to the option slice received from the caller')
+m('permcycle-skip','C02',['PERM-CYCLE'],'backend/plonk/bls12-377/setup.go','''	for i := 0; i < len(lro); i++ {
+		if cycle[lro[i]] != -1 {''','''	for i := 0; i < len(lro); i++ {
+		if i >= sizeSolution && lro[i] == 0 {
+			continue // unused R / O slots default to wire 0
+		}
+		if cycle[lro[i]] != -1 {''',note='R and O positions holding wire 0 are skipped by the cycle construction')
+for cv in ['bn254','bls12-377','bls12-381','bls24-315','bls24-317','bw6-633','bw6-761']:
+  edit('backend/plonk/'+cv+'/setup.go',[('''	for i := 0; i < len(permutation); i++ {
+		permutation[i] = -1
+	}
+''','''	for i := range permutation {
+		permutation[i] = -1
+	}
+'''),('''		if cycle[lro[i]] != -1 {
+			// if != -1, it means we already encountered this value
+			// so we need to set the corresponding permutation index.
+			permutation[i] = cycle[lro[i]]
+		}
+		cycle[lro[i]] = int64(i)''','''		wire := lro[i]
+		if last := cycle[wire]; last != -1 {
+			// we already encountered this value: chain the position to the previous one
+			permutation[i] = last
+		}
+		cycle[wire] = int64(i)''')])
+save('benign-permcycle-locals','C02','backend/plonk/bn254/setup.go','buildPermutation with range loop and named temporaries (all seven curves)')
 json.dump({'comment':'selftest mutants: each patch breaks one rule instance and must be detected by the listed rule(s) of its property; produced by tools/make_selftest.py','mutants':M}, open(os.path.join(root,'selftest','mutants.json'),'w'), indent=1)
 subprocess.run(['git','-C','/repo','worktree','remove','--force',WT],capture_output=True)
 print(len(M),'mutants')
